@@ -3,4 +3,4 @@ CONSTANTS
   MaxName = 255
 INIT Init
 NEXT Next
-INVARIANTS Equivalence DedupProps
+INVARIANTS Equivalence DedupProps ExtProps
